@@ -76,6 +76,9 @@ func (h *tkHarness) call(name string, args ...mv) (mv, mOutcome) {
 // WhitespaceState, SymbolState, ... - returns). "" or why it could not be done.
 func (h *tkHarness) stateCall(state, method string, args ...mv) string {
 	sv, out := h.call(state)
+	if _, isNil := sv.(mNilT); isNil && out.kind == "ok" {
+		return fmt.Sprintf("%s() has no state", state)
+	}
 	si, ok := sv.(mIface)
 	if out.kind != "ok" || !ok {
 		return fmt.Sprintf("%s(): %s %s", state, out.kind, out.why)
@@ -95,6 +98,9 @@ func (h *tkHarness) setCharState(from, to rune, state string) string {
 	sv, out := h.call(state)
 	if out.kind != "ok" {
 		return fmt.Sprintf("%s(): %s %s", state, out.kind, out.why)
+	}
+	if _, isNil := sv.(mNilT); isNil {
+		return fmt.Sprintf("%s() has no state", state)
 	}
 	if _, out := h.call("SetCharacterState", int64(from), int64(to), sv); out.kind != "ok" {
 		return fmt.Sprintf("SetCharacterState(%#x, %#x, %s()): %s %s", from, to, state, out.kind, out.why)
